@@ -32,6 +32,7 @@ type LoopSpec struct {
 	Invs []*Clause
 	Decr *Clause
 	Body []*Clause // `each`: checked at the end of every iteration (may use iter_calls/iter_arg)
+	Entry []*Clause // `entry`: checked once, when the loop is entered
 }
 
 type FuncSpec struct {
@@ -133,7 +134,7 @@ var headWords = map[string]bool{
 	"modifies": true, "panics": true, "decreases": true, "pure": true, "log": true, "logs": true, "loop": true,
 	"invariant": true, "trusted": true, "source": true, "nobody": true, "lock": true, "shared": true,
 	"ghost": true, "chan": true, "chanmsg": true, "params": true, "creates": true, "consumes": true, "havoc": true, "assert": true,
-	"holds": true, "waitset": true, "immutable": true, "tracks": true, "ptriface": true, "nonnil": true, "preserves": true, "each": true, "wraparound": true,
+	"holds": true, "waitset": true, "immutable": true, "tracks": true, "ptriface": true, "nonnil": true, "preserves": true, "each": true, "entry": true, "wraparound": true,
 }
 
 type rawLine struct {
@@ -539,6 +540,15 @@ func (cs *Contracts) LoadContractFile(path, pkgPath string, pkgImports map[strin
 			}
 			curL = &LoopSpec{Key: k}
 			curF.Loops[k] = curL
+		case "entry":
+			if curL == nil {
+				cs.errf(ctx, c.line, "entry outside loop")
+				continue
+			}
+			tags, text := splitTags(rest)
+			if cl := mk("entry", text, tags); cl != nil {
+				curL.Entry = append(curL.Entry, cl)
+			}
 		case "each":
 			if curL == nil {
 				cs.errf(ctx, c.line, "each outside loop")
